@@ -1,5 +1,5 @@
 // publisher_replay.cpp -- replays behaviours of spec/Publisher/Publisher.tla on the real
-// cocls::publisher<int> / cocls::subscriber<int>, comparing the projection of the real objects
+// cocls::publisher<Item> / cocls::subscriber<Item> (publisher_item.h), comparing the projection of the real objects
 // (through derived probe classes) with the specification's state after every step.
 //
 // The three critical sections of subscriber::next() are public calls of the awaiter
@@ -25,6 +25,7 @@
 //              "subs":{"<id>":{"hnd","mode","pc","recv":[...],"res","wakes"}}}  (live subscribers)
 #include <cocls/publisher.h>
 #include "replay_common.h"
+#include "publisher_item.h"
 
 #include <atomic>
 #include <coroutine>
@@ -37,15 +38,15 @@
 
 using namespace rp;
 
-using Pub = cocls::publisher<int>;
+using Pub = cocls::publisher<Item>;     // publisher_item.h: moved-from and destroyed items are distinguishable
 using Queue = Pub::queue;
-using SubT = cocls::subscriber<int>;
+using SubT = cocls::subscriber<Item>;
 
 // protected members of publisher<int>::queue through pointers to members obtained in a derived class
 struct QProbe : Queue {
     static auto &regs(Queue &q) { return q.*(&QProbe::_regs); }
     static std::size_t &next_free(Queue &q) { return q.*(&QProbe::_next_free); }
-    static std::deque<int> &window(Queue &q) { return q.*(&QProbe::_q); }
+    static std::deque<Item> &window(Queue &q) { return q.*(&QProbe::_q); }
     static std::size_t &pos(Queue &q) { return q.*(&QProbe::_pos); }
     static bool &closed(Queue &q) { return q.*(&QProbe::_closed); }
     static std::mutex &mx(Queue &q) { return q.*(&QProbe::_mx); }
@@ -129,7 +130,7 @@ struct Sub {
     void deliver(bool r) {
         res = "none";
         wakes = 0;
-        if (r) { recv.push_back(obj->value()); pc = "idle"; }
+        if (r) { recv.push_back(obj->value().shown()); pc = "idle"; }
         else pc = "eos";
     }
     // a registered awaiter of the split style has been resumed by the library
@@ -175,7 +176,7 @@ static Co looper_body(Sub *s) {
         s->in_next = false;
         s->res = "none";
         if (!r) { s->pc = "eos"; break; }
-        s->recv.push_back(s->obj->value());
+        s->recv.push_back(s->obj->value().shown());
         // no scenario publishes more than a handful of values: a stream that never ends is a defect
         // of the library (seen on the pinned tree after a polled end of stream), not a reason to hang
         if (s->recv.size() > 64) { s->flag("while (co_await next()) does not terminate"); s->pc = "eos"; break; }
@@ -208,7 +209,7 @@ struct World {
         m.set("pubAlive", pub != nullptr);
         m.set("nextFree", QProbe::next_free(q()));
         J w = J::list();
-        for (int v : QProbe::window(q())) w.push(v);
+        for (const Item &v : QProbe::window(q())) w.push(v.shown());    // element by element: a gutted element shows at once
         m.set("q", w);
         auto &regs = QProbe::regs(q());
         J rl = J::list();
@@ -342,11 +343,11 @@ struct World {
         }
         if (a == "PushCS") {
             int n = st.iarg(0);
-            if (n == 1 && single == "rvalue") { int v = ++npub; pub->publish(std::move(v)); }
-            else if (n == 1 && single == "lvalue") { const int v = ++npub; pub->publish(v); }
+            if (n == 1 && single == "rvalue") { Item v(++npub); pub->publish(std::move(v)); }
+            else if (n == 1 && single == "lvalue") { const Item v(++npub); pub->publish(v); }
             else {
-                std::vector<int> vals;
-                for (int i = 0; i < n; i++) vals.push_back(++npub);
+                std::vector<Item> vals;
+                for (int i = 0; i < n; i++) vals.emplace_back(++npub);
                 pub->publish(vals.begin(), vals.end());
             }
             settle_blocked();
